@@ -20,7 +20,7 @@ fn meta(ctx: &Ctx) -> Meta {
     Meta {
         level: "exploration",
         rule: format!(
-            "operation histories over {{sign with RSA-4096, protected RSA-3072, Ed25519, ECDSA-P256; clear signatures; write + re-parse; a FAILING signing attempt (protected key without passphrase), which must leave the package unchanged}}: ALL sequences up to length {} from built packages with and without files, seeded random histories up to length {} from further built packages and from the six asset packages (unsigned, RSA-signed, IMA-signed, source rpm). After EVERY step a 3-line sequential model (last signer since the last clear) is compared with: verify_signature under each of the four public keys (must succeed exactly for the last signer), signature_key_ids() (exactly that key's id, derived independently with the pgp crate), verify_digests(), and byte identity of header+payload with the starting package. distinct_nontrivial = distinct (start, history prefix) states checked",
+            "operation histories over {{sign with RSA-4096, protected RSA-3072, Ed25519, ECDSA-P256; clear signatures; write + re-parse; a FAILING signing attempt (protected key without passphrase), which must leave the package unchanged}}; signing times drawn per (history, step) from {{a fixed past instant, 0, now, now + 400 days, 2100-01-01, u32::MAX}}: ALL sequences up to length {} from built packages with and without files, seeded random histories up to length {} from further built packages and from the six asset packages (unsigned, RSA-signed, IMA-signed, source rpm). After EVERY step a 3-line sequential model (last signer since the last clear) is compared with: verify_signature under each of the four public keys (must succeed exactly for the last signer), signature_key_ids() (exactly that key's id, derived independently with the pgp crate), verify_digests(), and byte identity of header+payload with the starting package. distinct_nontrivial = distinct (start, history prefix) states checked",
             ctx.tier.pick(3, 4),
             ctx.tier.pick(8, 12)
         ),
@@ -124,7 +124,19 @@ fn run_history(start: &Package, start_last: Last, hist: &[Op], keys: &[Key], key
         };
         match op {
             Op::Sign(k) => {
-                pkg.sign_with_timestamp(&keys[*k].signer, 1_600_000_000u32 + step as u32).map_err(|e| format!("sign fails: {e}"))?;
+                // signing times: mostly a fixed past instant, but also the epoch, the current time,
+                // instants in the future of this host's clock and the last representable second
+                let h = hist.iter().fold(step as u64 + 1, |a, o| a.wrapping_mul(0x100000001b3).wrapping_add(match o { Op::Sign(k) => 10 + *k as u64, Op::Clear => 1, Op::Reparse => 2, Op::FailSign => 3 }));
+                let now = std::time::SystemTime::now().duration_since(std::time::UNIX_EPOCH).map(|d| d.as_secs() as u32).unwrap_or(1_700_000_000);
+                match (h >> 7) % 10 {
+                    0 => pkg.sign_with_timestamp(&keys[*k].signer, 0u32),
+                    1 => pkg.sign_with_timestamp(&keys[*k].signer, now.saturating_add(400 * 86_400)),
+                    2 => pkg.sign_with_timestamp(&keys[*k].signer, 4_102_444_800u32),
+                    3 => pkg.sign_with_timestamp(&keys[*k].signer, u32::MAX),
+                    4 => pkg.sign(&keys[*k].signer),
+                    _ => pkg.sign_with_timestamp(&keys[*k].signer, 1_600_000_000u32 + step as u32),
+                }
+                .map_err(|e| format!("sign fails: {e}"))?;
                 last = Last::Key(*k);
             }
             Op::Clear => {
